@@ -431,7 +431,45 @@ func (p *prover) proveLE0(goal *lin) bool {
 }
 
 // proveLess shows a < b; proveLeq shows a <= b.
+// arms: the alternatives of a merged value (every one must satisfy the goal).
+func arms(t *flow.Term) []*flow.Term {
+	s := flow.StripConv(t)
+	switch s.Op {
+	case flow.OpPhi:
+		if len(s.Args) > 1 && len(s.Args) <= 4 {
+			return s.Args
+		}
+	case flow.OpIte:
+		return s.Args[1:]
+	}
+	return nil
+}
+
 func (p *prover) proveLess(a, b *flow.Term) bool {
+	{
+		g := linOf(a)
+		g.add(linOf(b), -1)
+		g.k++
+		if p.proveLE0(g) {
+			return true // the merged value itself is constrained by the facts
+		}
+	}
+	if as := arms(a); as != nil {
+		for _, x := range as {
+			if !p.proveLess(x, b) {
+				return false
+			}
+		}
+		return true
+	}
+	if bs := arms(b); bs != nil {
+		for _, x := range bs {
+			if !p.proveLess(a, x) {
+				return false
+			}
+		}
+		return true
+	}
 	g := linOf(a)
 	g.add(linOf(b), -1)
 	g.k++
@@ -439,6 +477,29 @@ func (p *prover) proveLess(a, b *flow.Term) bool {
 }
 
 func (p *prover) proveLeq(a, b *flow.Term) bool {
+	{
+		g := linOf(a)
+		g.add(linOf(b), -1)
+		if p.proveLE0(g) {
+			return true
+		}
+	}
+	if as := arms(a); as != nil {
+		for _, x := range as {
+			if !p.proveLeq(x, b) {
+				return false
+			}
+		}
+		return true
+	}
+	if bs := arms(b); bs != nil {
+		for _, x := range bs {
+			if !p.proveLeq(a, x) {
+				return false
+			}
+		}
+		return true
+	}
 	g := linOf(a)
 	g.add(linOf(b), -1)
 	return p.proveLE0(g)
